@@ -72,6 +72,7 @@ def c04_jobs(tier):
     extra = []
     if tier == "thorough":
         extra = [miri("c04-miri", "c04", 14), sim("c04-phases-h2", "c04", transport="h2", episodes=3300)]
+    extra.append(conc("c04-conc", "c03", params={"n": 1500 if tier == "quick" else 20000}))
     return extra + [sim("c04-phases", "c04", require_counters=["expiry_measured_by_blocked_pull", "expiry_measured_by_stream", "probe_before_deadline_empty", "probe_after_slack_returned", "second_expiry_observed"])]
 
 
@@ -112,6 +113,7 @@ def c01_jobs(tier):
     jobs = [conc("c01-conc", "c01", require_counters=["obligations", "redeliveries", "mailbox_full_observations"]),
             sim("c01-seq-cycles", "c02", params={"len": 3}, require_nontrivial=False)]
     jobs.append(sim("c01-volume", "c15", require_nontrivial=False))
+    jobs.append(sim("c01-detached", "c11", require_nontrivial=False))
     if tier == "thorough":
         jobs.append(conc("c01-conc-h2", "c01", transport="h2"))
         jobs.append(asan_mt("c01-asan-mt", "conc", params={"profile": "c01"}, crash_property="C01"))
@@ -121,6 +123,7 @@ def c01_jobs(tier):
 def c03_jobs(tier):
     jobs = [conc("c03-conc", "c03", require_counters=["subscriptions_with_2plus_consumers", "redeliveries"]),
             sim("c03-seq-model", "c05", require_nontrivial=False),
+            sim("c03-seq-deadlines", "c04", require_nontrivial=False),
             sim("c03-push-vs-pull", "c14", params={"maxlen": 1}, require_counters=["competitor_deliveries"], require_nontrivial=False),
             conc("c03-conc-c01mix", "c01", params={"n": 1500 if tier == "quick" else 20000})]
     if tier == "thorough":
@@ -237,7 +240,7 @@ PROPERTIES = {
             "assumptions": ["tokio timers have 1 ms resolution: expiry instants are observed rounded up to the next millisecond"]},
     "C02": {"level": "exploration", "jobs": c02_jobs, "engine": "dvsim",
             "technique": "runtime monitoring against an executable reference model: exhaustive bounded operation sequences + random sequential histories on a virtual clock, exact per-step oracle incl. stats of every subscription",
-            "level_text": "All sequences up to length 4 (quick) / 5 (thorough) over a 13-letter alphabet (publish, pulls, ack of oldest/newest/stale/unknown/repeated IDs, one request with a dead ID in front of every live ID, nack, modify, time advances to 1 ms before / just past the next deadline) run against the real services on a topic with two subscriptions, followed by three deadline crossings with full pulls; plus thousands of random 40-80 step histories. After every step the reference model must admit the response and the hook stats of both subscriptions must equal the model, so 'touches nothing else' is observed, not assumed. The bounded family is enumerated completely; longer histories are sampled.",
+            "level_text": "All sequences up to length 4 (quick) / 5 (thorough) over a 14-letter alphabet (publish, pulls, ack of oldest/newest/stale/unknown/repeated IDs, one request with a dead ID in front of every live ID, an ack 2 ms before the deadline followed by a clock jump past it, nack, modify, time advances to 1 ms before / just past the next deadline) run against the real services on a topic with two subscriptions, followed by three deadline crossings with full pulls; plus thousands of random 40-80 step histories. After every step the reference model must admit the response and the hook stats of both subscriptions must equal the model, so 'touches nothing else' is observed, not assumed. The bounded family is enumerated completely; longer histories are sampled.",
             "level_note": SIM_NOTE,
             "assumptions": ["acks inside the expiry window [D, D+999 ms] assert nothing (ambiguous)"]},
     "C14": {"level": "fault_enumeration", "jobs": c14_jobs, "engine": "dvsim + scripted push endpoint",
